@@ -109,14 +109,29 @@ def samePreimage (a b : Bytes) : Bool :=
 def collides (recs : List Record) (n : Bytes) : Bool :=
   recs.any fun r => r.name ≠ n && samePreimage r.name n
 
+/-- "A name can be bound only under an existing parent and, if the parent is restricted, only by
+the parent's owner", judged for a name that a bind message brought into being: its IMMEDIATE
+parent (the name minus its first segment — whatever parent the message mentioned) must be a
+record of the implementation's state before the message, and if that record is restricted the
+signer must own it. -/
+def parentProblem (pre : List Record) (signer : Addr) (name : Bytes) : Option String :=
+  if (splitDot name).length < 2 then some "fail:bind_created_parentless_name" else
+  let p := immediateParent name
+  match findByName pre p with
+  | none => if collides pre p then some "fail:key_collision" else some "fail:bind_immediate_parent_missing"
+  | some par =>
+    if bindAllowed (some par) signer then none else some "fail:bind_under_restricted_parent_nonowner"
+
 /-- verdict for a message the implementation ACCEPTED, against the implementation's state before it -/
 def checkAccepted (pre : Dump) : Op → String
   | .root a _ _ _ => if rootAllowed "G" a then "ok" else "fail:root_nonauthority"
-  | .bind pn pa _ _ _ =>
+  | .bind pn pa rn _ _ =>
     let p := normalizeName pn
     match findByName pre.recs p with
     | none => if collides pre.recs p then "fail:key_collision" else "fail:bind_no_parent"
-    | some par => if bindAllowed (some par) pa then "ok" else "fail:bind_restricted_nonowner"
+    | some par =>
+      if !bindAllowed (some par) pa then "fail:bind_restricted_nonowner"
+      else (parentProblem pre.recs pa (normalizeName (rn ++ dot :: pn))).getD "ok"
   | .modify a n _ _ =>
     let t := normalizeName n
     match findByName pre.recs t with
@@ -176,7 +191,15 @@ def checkDump (cfg : Cfg Bytes) (pre : Dump) (last : Option (Op × Bool)) (d : D
         if !(lost ++ gained).isEmpty then
           if (lost ++ gained).any fun r => targets.any fun t => samePreimage r.name t
           then "fail:key_collision" else "fail:unrelated_record_changed"
-        else if effectOk pre d op then "ok"
+        else
+        -- every name a bind brought into being sits under an existing parent that admits the signer
+        let born : List Bytes := match op with
+          | .bind .. => (d.recs.filter fun (r : Record) => (findByName pre.recs r.name).isNone).map Record.name
+          | _ => []
+        match born.findSome? (parentProblem pre.recs op.signer) with
+        | some c => c
+        | none =>
+        if effectOk pre d op then "ok"
         else if targets.any fun t => collides pre.recs t then "fail:key_collision"
         else match op with
           | .root .. => "fail:root_effect" | .bind .. => "fail:bind_effect"
